@@ -133,6 +133,14 @@ func Note(msg string)    {}
 // PreemptAtLocks makes every mutex acquisition a scheduling point in the engine.
 func PreemptAtLocks(b bool) {}
 
+// RaceDetect switches the engine's happens-before data-race detector on or off (natively: no-op;
+// native replays may be run under the real race detector instead).
+func RaceDetect(b bool) {}
+
+// Tick returns a logical timestamp that increases with every executed instruction (natively: the
+// monotonic clock); it orders invocation and return events without synchronising anything.
+func Tick() int64 { return time.Now().UnixNano() }
+
 // Quiesce waits until all other goroutines have finished or are blocked (natively: a short sleep).
 func Quiesce() { time.Sleep(50 * time.Millisecond) }
 func Tier() int {
